@@ -2,6 +2,7 @@ package main
 
 import (
 	"fmt"
+	"go/token"
 	"go/types"
 	"os"
 	"path/filepath"
@@ -20,7 +21,7 @@ const modPath = "github.com/influxdata/influxdb"
 
 var targetDirs = []string{
 	"coordinator", "services/meta", "services/hh", "models", "tsdb/engine/tsm1", "tsdb",
-	"pkg/encoding/simple8b", "tsdb/cursors", "services/retention",
+	"pkg/encoding/simple8b", "tsdb/cursors", "services/retention", "query",
 }
 
 type engine struct {
@@ -217,6 +218,16 @@ func (e *engine) callSites(f *ssa.Function) map[ssa.Instruction]string {
 	for _, b := range f.Blocks {
 		for _, in := range b.Instrs {
 			switch in.(type) {
+			case *ssa.UnOp:
+				if u := in.(*ssa.UnOp); u.Op != token.ARROW {
+					continue
+				}
+				p := int(in.Pos())
+				if !in.Pos().IsValid() {
+					p = 1 << 40
+				}
+				ents = append(ents, ent{in, p, seq})
+				seq++
 			case *ssa.Call, *ssa.Defer, *ssa.Go, *ssa.Send, *ssa.Select, *ssa.MapUpdate:
 				p := int(in.Pos())
 				if !in.Pos().IsValid() {
@@ -244,6 +255,10 @@ func (e *engine) callSites(f *ssa.Function) map[ssa.Instruction]string {
 				c = x.Common()
 			case *ssa.Go:
 				c = x.Common()
+			case *ssa.UnOp:
+				// a plain channel receive (<-ch outside select)
+				cnt["recv"]++
+				m[in] = fmt.Sprintf("recv#%d", cnt["recv"])
 			case *ssa.Send:
 				cnt["send"]++
 				m[in] = fmt.Sprintf("send#%d", cnt["send"])
